@@ -132,6 +132,35 @@ Fixpoint aoh_has (k : string) (n : node) : bool :=
 Definition put_obj (o : N) (n' : node) (d : node) : node :=
   match app_obj o (fun _ => ROk n') d with ROk d' => d' | RErr _ => d end.
 
+(* `parent[parentref] = data` for the child the segment s found in cur: the
+   entry of the first equal key keeps its place / the element at the
+   (normalised) index is replaced *)
+Fixpoint put_key (k : pyval) (v : node) (kvs : list (node * node)) : list (node * node) :=
+  match kvs with
+  | [] => []
+  | kv :: r => if key_is k kv then (fst kv, v) :: r else kv :: put_key k v r
+  end.
+
+Fixpoint put_nth (n : nat) (v : node) (els : list node) : list node :=
+  match els, n with
+  | [], _ => []
+  | _ :: r, O => v :: r
+  | x :: r, S m => x :: put_nth m v r
+  end.
+
+Definition null_put (cur : node) (s : seg) (v : node) : node :=
+  match cur with
+  | NMap i kvs => match s with SKey k _ => NMap i (put_key (PStr k) v kvs) | SIdx _ => cur end
+  | NSeq i els =>
+      match (match s with SIdx z => Some z | SKey k _ => py_int k end) with
+      | Some z =>
+          let len := Z.of_nat (List.length els) in
+          NSeq i (put_nth (Z.to_nat (if (0 <=? z)%Z then z else z + len)) v els)
+      | None => cur
+      end
+  | _ => cur
+  end.
+
 (* _get_optional_nodes along a straight path: walk what exists, build the rest.
    Returns the new document, the yielded coordinate, the next identity. *)
 Fixpoint walk (segs : list seg) (cur : node) (pc : pcoord) (d : node) (next vo : N) (value : pyval)
@@ -177,9 +206,24 @@ Fixpoint walk (segs : list seg) (cur : node) (pc : pcoord) (d : node) (next vo :
       rbind found (fun f =>
       match f with
       | Some (child, cpc) =>
-          match child with
-          | NLeaf _ PNone => ROk (d, cpc, next)             (* `if next_coord.node is None: yield next_coord; continue` *)
-          | _ => walk rest child cpc d next vo value
+          match child, rest with
+          | NLeaf _ PNone, _ :: _ =>
+              (* (fix 09e1e7a; the walk used to stop here: `if next_coord.node is None: yield next_coord; continue`)
+                 no key / index segment finds anything in None; the missing-element block replaces a null that is
+                 the child of a dict / list by the container the segment needs - data =
+                 Nodes.build_next_node(yaml_path, depth, value); parent[parentref] = data - and builds the tail
+                 in it *)
+              match cur with
+              | NMap _ _ | NSeq _ _ =>
+                  rbind (build_next rest value next vo) (fun cont =>
+                  rbind (grow rest cont cpc (N.succ next) vo value) (fun g =>
+                  match coid cur with
+                  | Some o => ROk (put_obj o (null_put cur s (fst (fst g))) d, snd (fst g), snd g)
+                  | None => RErr (YPE Generic)
+                  end))
+              | _ => RErr (YPE Generic)                     (* Cannot add ... subreference to scalars *)
+              end
+          | _, _ => walk rest child cpc d next vo value
           end
       | None =>
           rbind (grow segs cur pc next vo value) (fun g =>
